@@ -54,6 +54,18 @@ CLAIMED = {
          "Structural necessary conditions of block-reward accounting: coins are minted only from the node begin-blocker and never burnt (proof over the call graph); the counter grows only after a successful mint by exactly the minted coin; mint is dominated by the pledge/reward tests and the baseline replacement is a guarded minimum; every persisted capacity change is preceded by settlement at the old capacity and followed by re-basing; a claim persists exactly the fractional remainder. Halving numerics and the sum bound are not decided (the division by pool.TotalStorage is reported under C02).",
          "Trusts dependencies; value identity is term identity (same access path, no intervening write assumed within the handler).",
          "DESIGN.md §3 C08"),
+ "C06": ("E1/E7/E3: module-account registration table vs bank call sites, bank error discipline, closed table of money flows",
+         "Three necessary structural clauses of escrow solvency: every module account named in a bank call is registered with the permission the call needs (else the bank panics and the payout cannot happen); the error of every bank mutator call is consumed (else records are updated for a transfer that failed); every bank call site matches the closed table of flows (modules, counter-party term, amount form) — a new or altered outflow is reported. The inequality balance >= sum owed is not decided.",
+         "Trusts bank keeper semantics (A-bank) and dependencies.",
+         "DESIGN.md §3 C06"),
+ "C07": ("E7/E2/E3: closed flow table for the node escrow, recipient provenance at every ShardRelease call site, guard dominance for capacity withdrawal and use, booked-amount identities and coupled deltas",
+         "Structural necessary conditions of collateral safety: collateral leaves the node escrow only through tabled flows to the signer or to the provider recorded in the released shard; the amount released is shard.Pledge net of debt repaid first; withdrawal is dominated by size <= total − used and use by the free-capacity test; the collateral stored in a shard equals coins taken plus debt recorded, and the provider's total moves by the same amount (violated at renewal: known finding). Numeric non-negativity and rounding are not decided.",
+         "Trusts dependencies; value identity is term identity.",
+         "DESIGN.md §3 C07"),
+ "C14": ("E3: coupled-delta analysis (sibling agreement and same-function coupling of aggregate updates)",
+         "Structural necessary condition of aggregate accounting: each aggregate is updated only together with, and by the same term as, the per-shard/per-provider quantity it sums (append vs release siblings agree; provider and pool totals move together; total shard collateral moves by what is stored in the shard — violated at renewal: known finding). The equalities themselves on reachable states are not decided.",
+         "Trusts dependencies; parameters of sibling functions are matched by record type.",
+         "DESIGN.md §3 C14"),
 }
 
 NA_REASON = "check not implemented yet (framework under construction; see DESIGN.md section 3 for the planned structural clauses)"
